@@ -1,8 +1,12 @@
 """C06 — subtree extraction and pruning: sidecar contracts."""
 import z3
 
+from pyvc import ext_C06
+from pyvc.ext_C06 import SymSet
 from pyvc.spec import Registry
 from pyvc.values import SArr, Sym, fresh_name, to_z3, zint
+
+ext_C06.install()  # library models of this property: Python sets of ints, any / all over symbolic bool lists
 
 SUB = "swcgeom/core/swc_utils/subtree.py"
 REMOVAL = -2
@@ -316,18 +320,35 @@ def register_subtree(R):
 
     WF = ["ids-are-positions", "node-0-is-the-root-and-parents-exist", "every-node-reaches-the-root"]
 
-    def ts_setup(S):
-        t = raw_tree(S)
-        rem = S.plist("int", name="removals")
-        i = z3.Int(fresh_name("i"))
-        # ghost definition: a kept entry's parent entry is the parent node (ids are positions)
-        S.assume(z3.ForAll([i], PPOS(i) == sel(col(t, "pid").arr, i)))
-        return dict(swc_like=t, removals=rem, out_mapping=None)
+    def ts_setup(kind):
+        def f(S):
+            t = raw_tree(S)
+            if kind == "list":
+                rem = S.plist("int", name="removals")
+            else:
+                rem = SymSet(z3.Const(fresh_name("removals_mem"), z3.ArraySort(I, z3.BoolSort())), "removals")
+            rem.frozen = True  # the caller's collection of removals is an input: a store into it is a failed frame obligation
+            i = z3.Int(fresh_name("i"))
+            # ghost definition: a kept entry's parent entry is the parent node (ids are positions)
+            S.assume(z3.ForAll([i], PPOS(i) == sel(col(t, "pid").arr, i)))
+            return dict(swc_like=t, removals=rem, out_mapping=None)
+
+        return f
+
+    def rem_member(rem):
+        """x -> `x is requested for removal` (a list / array of ids, or a set of ids)"""
+        if isinstance(rem, SymSet):
+            return lambda x: rem.has(x)
+        A, ln = list_view(rem)
+        j = z3.Int(fresh_name("j"))
+        return lambda x: z3.Exists([j], z3.And(j >= 0, j < ln, sel(A, j) == x))
 
     def ts_pre_removals(E, v, o):
         rem, n = v["removals"], nof(v["swc_like"])
-        A, ln = list_view(rem)
         j = z3.Int(fresh_name("j"))
+        if isinstance(rem, SymSet):
+            return z3.ForAll([j], z3.Implies(rem.has(j), z3.And(j >= 0, j < n)))
+        A, ln = list_view(rem)
         return z3.ForAll([j], z3.Implies(z3.And(j >= 0, j < ln), z3.And(sel(A, j) >= 0, sel(A, j) < n)))
 
     def ts_inv(which):
@@ -338,7 +359,12 @@ def register_subtree(R):
             k = to_z3(v["_k0"], "int")
             x, j = z3.Int(fresh_name("x")), z3.Int(fresh_name("j"))
             a = v["new_ids"]
-            listed = z3.Exists([j], z3.And(j >= 0, j < k, sel(rem.cols[0], j) == x))
+            if isinstance(rem, SymSet):  # the loop walks a ghost enumeration of the members (each once): pos = position in it
+                ks, m, pos, mem0 = E.ghost[("setelems-last", rem.uid)]
+                listed = z3.And(sel(mem0, x), pos(x) < k)
+            else:
+                A, ln = list_view(rem)
+                listed = z3.Exists([j], z3.And(j >= 0, j < k, sel(A, j) == x))
             if which == "marks-so-far":
                 return z3.And(a.nz() == n, a.uid not in E.entry_uids, z3.ForAll([x], z3.Implies(z3.And(x >= 0, x < n), a.get(x).z == z3.If(listed, z3.IntVal(REMOVAL), x))))
 
@@ -409,16 +435,13 @@ def register_subtree(R):
     def ts_post(which):
         def f(E, v, o):
             res, t = v["result"], o["swc_like"]
-            A, ln = list_view(o["removals"])
-            j = z3.Int(fresh_name("j"))
-            listed = lambda x: z3.Exists([j], z3.And(j >= 0, j < ln, sel(A, j) == x))
-            return subtree_clause(E, which, res, t, sub_ghost(E, res), seed=listed)
+            return subtree_clause(E, which, res, t, sub_ghost(E, res), seed=rem_member(o["removals"]))
 
         return f
 
     TS_POSTS = ["removal-closure-is-removed-or-below-a-removed-node", "survivors-are-exactly-the-nodes-outside-the-closure-in-order", "survivors-keep-every-attribute",
                 "ids-are-positions-and-parent-relation-kept", "result-shares-no-storage-with-the-input"]
-    R.add(f"{TU}:to_subtree", prop="C06", setup=ts_setup,
+    R.add(f"{TU}:to_subtree", prop="C06", variants={"removals in a list": ts_setup("list"), "removals in a set": ts_setup("set")},
           requires=[wf_clause(w) for w in WF] + [("removals-are-node-ids", ts_pre_removals)],
           returns=ts_result,
           ensures=[(nm, ts_post(nm)) for nm in TS_POSTS],
@@ -615,7 +638,7 @@ def register_subtree(R):
     from pyvc.engine import Unsupported
 
     _SUBTREE_KIT.update(nof=nof, col=col, sel=sel, list_view=list_view, raw_tree=raw_tree, wf_clause=wf_clause, WF=WF, sub_ghost=sub_ghost,
-                        subtree_clause=subtree_clause, all_cols=all_cols, wf_tree=wf_tree, topo_call=topo_call, Unsupported=Unsupported)
+                        subtree_clause=subtree_clause, rem_member=rem_member, all_cols=all_cols, wf_tree=wf_tree, topo_call=topo_call, Unsupported=Unsupported)
 
 
 # =========================================================================== cut_tree (enter form / leave form / neither)
